@@ -151,7 +151,7 @@ func main() {
 		Rule: "every sequence consists of acceptable reports (valid signature of an authorized device, inside both windows, power not 0/1) for fresh (device, slot) cells; letters: v, v' (same content re-signed), w, lim=floor(cap*135/100), lim+1, 2^63-1, 2^63, 2^64-5, 2, 3. " +
 			"Non-trivial = a sequence that delivers at least two acceptable reports to one cell; distinct by (kind, letter sequence) for the enumerated parts and by the delivered datagram history for the random part.",
 		Assumptions: []string{
-			"device capacities are drawn below 2^64/135 so that the property's '135% of capacity' and a 64-bit product agree; larger capacities are outside the input domain",
+			"device capacities range over the whole uint64 domain, including those above 2^64/135 whose 135 % does not fit 64 bits (the reference compares in big integers; until fix 79f2a8c such capacities were excluded, which hid a defect)",
 			"rotation and impact jobs are gated at their loop heads while sequences are judged",
 			"a report is the 80-byte datagram including its signature: the same content under a second valid signature (v') is a second distinct report, so {v, v'} must ban in either order",
 			"bulk delivery goes through VerifInject (the function the UDP listener calls); a sample of sequences goes through the real socket",
@@ -257,7 +257,7 @@ func post(c *ev.Check, outs []*run.Outcome) {
 		return
 	}
 	// positive controls: the monitor must have seen every kind of transition
-	for _, k := range []string{"obs.single_value", "obs.replay_kept", "obs.equivocation_ban", "obs.overcapacity_ban", "obs.banned_stays", "obs.negative_published", "obs.limit_published", "obs.resigned_ban", "burst.judged", "fault.on_banning_report", "restart.sequences", "restart.overcapacity_after_restart", "inflight.identical", "clock.early_deliveries",
+	for _, k := range []string{"obs.single_value", "obs.replay_kept", "obs.equivocation_ban", "obs.overcapacity_ban", "obs.banned_stays", "obs.negative_published", "obs.limit_published", "obs.resigned_ban", "burst.judged", "fault.on_banning_report", "restart.sequences", "restart.overcapacity_after_restart", "inflight.identical", "clock.early_deliveries", "capacity.above_2^64/135",
 		"via_socket", "via_hook", "surface.stats", "surface.sync", "surface.recent", "perm.classes_compared", "rand.sequences", "stress.cells"} {
 		c.Require(k, 1)
 	}
@@ -430,6 +430,23 @@ func (e *env) newWorld() bool {
 			if e.rng.Intn(4) == 0 {
 				capacity = maxCap - 1 - uint64(e.rng.Intn(1000))
 			}
+			// capacities whose 135 % no longer fits 64 bits (the limit is then judged in big
+			// integers; a limit above 2^63-1 means no non-negative report can exceed it)
+			if e.rng.Intn(3) == 0 {
+				switch e.rng.Intn(6) {
+				case 0:
+					capacity = maxCap
+				case 1:
+					capacity = maxCap + 1 + uint64(e.rng.Intn(1000))
+				case 2:
+					capacity = 1 << 63
+				case 3:
+					capacity = 1<<64 - 1 - uint64(e.rng.Intn(1000))
+				default:
+					capacity = maxCap + uint64(e.rng.Int63())
+				}
+				e.r.Count("capacity.above_2^64/135", 1)
+			}
 		}
 		if capacity%100 == 0 { // capacities that are no multiples of 100 separate floor(cap*135/100) from (cap/100)*135
 			capacity += 1 + uint64(e.rng.Intn(99))
@@ -449,7 +466,11 @@ func (e *env) newWorld() bool {
 			return false
 		}
 		di := &devInfo{Dev: d, cap: capacity}
-		di.lim = new(big.Int).Div(new(big.Int).Mul(new(big.Int).SetUint64(capacity), big.NewInt(135)), big.NewInt(100)).Uint64()
+		if bl := new(big.Int).Div(new(big.Int).Mul(new(big.Int).SetUint64(capacity), big.NewInt(135)), big.NewInt(100)); bl.IsUint64() && bl.Uint64() <= 1<<63-2 {
+			di.lim = bl.Uint64()
+		} else {
+			di.lim = 1<<63 - 2 // every non-negative power is within such a capacity; the letters stay usable
+		}
 		for {
 			di.pv = 4 + uint64(e.rng.Int63n(int64(di.lim-4)))
 			di.pw = 4 + uint64(e.rng.Int63n(int64(di.lim-4)))
